@@ -960,8 +960,8 @@ class PipeWorld:
             # records and propagates it when the job happens to be queued, which G mirrors below), but it must not
             # be taken for the result of a unit released since
             self.probes['reply_from_before_reload'] += 1
-            if alg not in qb:
-                return  # 'Could not find job': ignored by the pipeline
+            if alg not in qb or len(self.chron) == nchron:
+                return  # ignored by the pipeline ('Could not find job', or recognised as not belonging to an execution in flight)
             if G.inflight.get((alg, t)) and t in before[alg][1] and t not in after[alg][1]:
                 self.violate('C03', 'stale_result_applied', 'reply_from_before_reload',
                              f'result {status} of {alg}[{t}] run={msg.runid}, executed by a worker that got the task before the last (re)load, '
